@@ -70,9 +70,19 @@ func (i *identifierIssuer) GetBlankNodeString(bni rdf.BlankNodeIdentifier) strin
 	return id
 }
 
+// Clone copies a temporary issuer. The copy counts on its own: identifiers issued by the copy (or by another copy)
+// must not advance the original's counter.
 func (i *identifierIssuer) Clone() identifierIssuer {
+	stringer := blanknodes.NewInt64StringProvider("b%d")
+
+	for _, bni := range i.issuedOrder {
+		stringer.GetBlankNodeString(rdf.BlankNode{
+			Identifier: bni,
+		})
+	}
+
 	return identifierIssuer{
-		stringer:         i.stringer,
+		stringer:         stringer,
 		knownIdentifiers: maps.Clone(i.knownIdentifiers),
 		issuedOrder:      slices.Clone(i.issuedOrder),
 	}
